@@ -672,10 +672,11 @@ def summarize(results):
             'finite_diff_arms_visited(method,mode,n=2|3|>=4)': len(arms),
             'finite_diff_arms_total': 3 * 10 * 3 - 3 * 2,
             'unreached_anchor_lines_explained':
-                'argument-validation raises of finite_diff (axis shorter than 2 / than the '
-                'documented minimum of order1, order2; bad axis, dx, method, pad_mode; wrong out '
-                'shape), its unreachable final else, and the "has no adjoint" raises of the '
-                'affine variants are not enumerated: only admissible configurations are'}
+                'argument-validation raises of finite_diff (axis shorter than 2 or than the '
+                'documented minimum of order1 / order2, negative-axis normalisation, bad axis, '
+                'dx, method, pad_mode, wrong out shape), its unreachable final else, and the '
+                '"has no adjoint" raises of the affine variants are not enumerated: only '
+                'admissible configurations are'}
 
 
 def meta(tier):
